@@ -342,7 +342,8 @@ LEVEL_TEXT = ("Coq proofs about an executable Gallina transcription of the spawn
               "fails), once every future has completed and no task is ready the node holds the fetcher applied to the current "
               "inputs and is not loading, no awaiter stays parked once loading is off, a synchronous read only ever returns none "
               "or a value that was produced earlier, and every stored value marks the subscribed dependent; tied to /repo by running "
-              "the extracted model and the real ArcAsyncDerived / AsyncDerived / resource-style node on the same generated "
+              "the extracted model and the real ArcAsyncDerived / AsyncDerived / resource-style node / leptos_server resources (Resource, OnceResource, "
+              "LocalResource and their Arc forms) on the same generated "
               "histories on a harness-owned executor and comparing value, loading flag, ready tasks, awaiter states, the "
               "dependent's log and the number of fetches after every event, plus an independent Python oracle at quiescence.")
 LEVEL_NOTE = ("Trusted: Coq kernel, extraction + OCaml driver, Rust harness + executor; modelled not verified: memos (assumed to "
